@@ -264,6 +264,104 @@ impl Known {
 }
 
 // ---------------------------------------------------------------------------------------
+// memory-safety oracle: valgrind memcheck, addressability only, heap-block reports only
+// (DESIGN.md section 4)
+// ---------------------------------------------------------------------------------------
+pub struct VgResult {
+    /// fingerprint of the first trusted report, if any
+    pub report: Option<(String, String)>,
+    pub untrusted: u64,
+    pub child: ChildResult,
+}
+
+fn frame_fn(line: &str) -> Option<String> {
+    // "==123==    by 0x33AC22: may::cancel::CancelImpl<T>::set_co (cancel.rs:162)"
+    let l = line.split(": ").nth(1)?;
+    let name = l.split(" (").next()?.trim();
+    if !(name.contains("may::") || name.contains("may_queue::")) {
+        return None;
+    }
+    // strip generic arguments and closure decorations
+    let mut out = String::new();
+    let mut depth = 0;
+    for ch in name.chars() {
+        match ch {
+            '<' => depth += 1,
+            '>' => depth -= 1,
+            _ if depth == 0 => out.push(ch),
+            _ => {}
+        }
+    }
+    let out = out.replace("::{closure#0}", "").replace(" as ", "-as-");
+    Some(out.split_whitespace().collect::<Vec<_>>().join(""))
+}
+
+pub fn exec_valgrind(bin: &Path, case: &Case) -> VgResult {
+    let args: Vec<String> = ["timeout", "-s", "KILL", "180", "valgrind", "--undef-value-errors=no", "-q", "--num-callers=24", "--error-exitcode=0"].iter().map(|s| s.to_string()).collect();
+    let t0 = Instant::now();
+    let out = Command::new(&args[0]).args(&args[1..]).arg(bin).arg("child").arg(case.to_json()).stdin(Stdio::null()).stdout(Stdio::piped()).stderr(Stdio::piped()).output();
+    let (so, se) = match out {
+        Ok(o) => (String::from_utf8_lossy(&o.stdout).to_string(), String::from_utf8_lossy(&o.stderr).to_string()),
+        Err(e) => (String::new(), format!("valgrind failed to start: {e}")),
+    };
+    let mut vline = String::new();
+    let mut detail = String::new();
+    for l in so.lines() {
+        if let Some(r) = l.strip_prefix("VERDICT ") {
+            vline = r.to_string();
+        } else if let Some(r) = l.strip_prefix("DETAIL ") {
+            detail = r.to_string();
+        }
+    }
+    let verdict = match vline.split(' ').next().unwrap_or("") {
+        "ok" => Verdict::Ok,
+        "violation" | "deadlock" => Verdict::Bad(vline.clone()),
+        _ => Verdict::Inconclusive(format!("valgrind-run {vline}")),
+    };
+    let mut report = None;
+    let mut untrusted = 0;
+    // reports are separated by a line "==pid== "
+    let mut block: Vec<&str> = vec![];
+    let mut blocks: Vec<Vec<&str>> = vec![];
+    for l in se.lines() {
+        let body = l.splitn(3, "==").nth(2).unwrap_or("");
+        if body.trim().is_empty() {
+            if !block.is_empty() {
+                blocks.push(std::mem::take(&mut block));
+            }
+        } else {
+            block.push(l);
+        }
+    }
+    if !block.is_empty() {
+        blocks.push(block);
+    }
+    for b in blocks {
+        let head = b.iter().find(|l| l.contains("Invalid ") || l.contains("Mismatched") || l.contains("ump or move"));
+        let head = match head {
+            Some(h) => h,
+            None => continue,
+        };
+        let heap = b.iter().any(|l| l.contains("free'd") || l.contains("alloc'd"));
+        // the access stack is everything before the "Address ..." line
+        let access: Vec<&str> = b.iter().take_while(|l| !l.contains("Address 0x")).cloned().collect();
+        let frames: Vec<String> = access.iter().filter_map(|l| frame_fn(l)).collect();
+        if heap && !frames.is_empty() {
+            if report.is_none() {
+                let kind = if head.contains("write") { "invalid-write" } else if head.contains("read") { "invalid-read" } else { "invalid-free" };
+                let fp = format!("memcheck {kind} {}", frames.iter().take(2).cloned().collect::<Vec<_>>().join("<-"));
+                let text: String = b.iter().filter(|l| l.contains("Invalid") || l.contains("Address") || l.contains("may") || l.contains("Block was")).take(14).map(|l| l.splitn(3, "==").nth(2).unwrap_or("").trim().chars().take(160).collect::<String>()).collect::<Vec<_>>().join(" | ");
+                report = Some((fp, text));
+            }
+        } else {
+            // coroutine-stack memory or foreign frames: logged, never reported
+            untrusted += 1;
+        }
+    }
+    VgResult { report, untrusted, child: ChildResult { verdict, detail, report: Value::Null, stats: Value::Null, wall_ms: t0.elapsed().as_millis() } }
+}
+
+// ---------------------------------------------------------------------------------------
 // search
 // ---------------------------------------------------------------------------------------
 #[derive(Default)]
@@ -284,6 +382,10 @@ pub struct Shared {
     pub by_unit: BTreeMap<String, u64>,
     pub by_feat: BTreeMap<String, u64>,
     pub slow_ms_max: u128,
+    /// passing non-trivial cases kept for the valgrind sample (per runner quota)
+    pub vg_sample: Vec<Case>,
+    pub vg_runs: u64,
+    pub vg_reports_untrusted: u64,
 }
 
 #[derive(Clone, Debug)]
@@ -306,6 +408,7 @@ pub struct RunCfg {
     pub jobs: usize,
     pub cases_override: Option<u32>,
     pub include_known: bool,
+    pub no_valgrind: bool,
 }
 
 fn seed_bytes(seed: u64, prop: &str, unit: &str, runner: usize) -> [u8; 32] {
@@ -391,6 +494,9 @@ fn run_unit_runner(cfg: &RunCfg, unit: &Unit, runner_idx: usize, cases: u32, fea
     // fingerprint of the first failure of this runner: shrinking sticks to it
     let first_fp: Mutex<Option<(String, String, Value)>> = Mutex::new(None);
     let bin = cfg.bins.for_feat(feat).to_path_buf();
+    // memcheck sample: the first passing non-trivial cases of every runner (a deterministic
+    // function of seed and tree, not of time)
+    let vg_quota = Mutex::new(if cfg.no_valgrind { 0u32 } else if cfg.thorough { 25 } else { 2 });
     let res = runner.run(&strat, |case| {
         let shrinking = first_fp.lock().unwrap().is_some();
         if !shrinking && stop.load(Ordering::SeqCst) {
@@ -403,7 +509,17 @@ fn run_unit_runner(cfg: &RunCfg, unit: &Unit, runner_idx: usize, cases: u32, fea
             }
         }
         let r = exec_child(&bin, &case, &[], false);
+        if r.wall_ms > std::env::var("MV_SLOWLOG").ok().and_then(|v| v.parse().ok()).unwrap_or(u128::MAX) && std::env::var_os("MV_SLOWLOG").is_some() {
+            eprintln!("SLOW {} ms {:?} {}", r.wall_ms, r.verdict, case.to_json());
+        }
         record(shared, &case, &r, unit.label, shrinking);
+        if !shrinking && r.verdict == Verdict::Ok && r.report.get("nontrivial").and_then(|v| v.as_bool()).unwrap_or(false) {
+            let mut q = vg_quota.lock().unwrap();
+            if *q > 0 {
+                *q -= 1;
+                shared.lock().unwrap().vg_sample.push(case.clone());
+            }
+        }
         match &r.verdict {
             Verdict::Ok | Verdict::Inconclusive(_) => Ok(()),
             Verdict::Bad(fp) => {
@@ -604,6 +720,39 @@ pub fn run_property(cfg: RunCfg) -> i32 {
         }
     }
 
+    // 3b. memcheck on the sample of passing non-trivial cases
+    let sample: Vec<Case> = std::mem::take(&mut shared.lock().unwrap().vg_sample);
+    if !stop.load(Ordering::SeqCst) && !sample.is_empty() {
+        let next = AtomicU64::new(0);
+        std::thread::scope(|s| {
+            for _ in 0..cfg.jobs {
+                s.spawn(|| loop {
+                    let i = next.fetch_add(1, Ordering::SeqCst) as usize;
+                    if i >= sample.len() {
+                        break;
+                    }
+                    let case = &sample[i];
+                    let r = exec_valgrind(cfg.bins.for_feat(case.feat), case);
+                    let mut sh = shared.lock().unwrap();
+                    sh.vg_runs += 1;
+                    sh.vg_reports_untrusted += r.untrusted;
+                    let bad = match (&r.report, &r.child.verdict) {
+                        (Some((fp, text)), _) => Some((fp.clone(), text.clone())),
+                        (None, Verdict::Bad(fp)) => Some((fp.clone(), r.child.detail.clone())),
+                        _ => None,
+                    };
+                    if let Some((fp, text)) = bad {
+                        if let Some(f) = known.matching(cfg.prop.id, &case.fam, &fp) {
+                            *sh.known_hits.entry(f.name.clone()).or_insert(0) += 1;
+                        } else {
+                            sh.failures.push(Failure { case: case.clone(), fp, detail: text, stats: Value::Null, unit: "memcheck-sample".into(), runner: i, shrunk: false });
+                        }
+                    }
+                });
+            }
+        });
+    }
+
     // 4. verdicts
     let mut sh = shared.lock().unwrap();
     let mut seen = HashSet::new();
@@ -640,6 +789,8 @@ pub fn run_property(cfg: RunCfg) -> i32 {
             "distinct_cases": sh.distinct.len(),
             "shrink_evaluations": sh.shrink_evaluations,
             "regress_replays": regress_run,
+            "memcheck_sample_runs": sh.vg_runs,
+            "memcheck_untrusted_reports_ignored": sh.vg_reports_untrusted,
             "classes": sh.classes,
             "by_unit": sh.by_unit,
             "by_feature_set": sh.by_feat,
@@ -722,4 +873,4 @@ pub fn replay(prop: &str, path: &Path, bins: &Bins, verif: &Path, valgrind: bool
 }
 
 #[allow(dead_code)]
-pub fn unused(_: &HashMap<u8, u8>, _: &AtomicU64) {}
+pub fn unused(_: &HashMap<u8, u8>) {}
